@@ -276,6 +276,10 @@ def form_case(ctx, part, line, b, fpsse, tier, seg=False):
         post0 = observe(res[0])
         written0 = {k for k in post0 if k != 'eip' and post0[k] != pre0[k]}
         und = c04.undefined(mn, line, fl, regs, None) if not fpsse else set()
+        if 'dst-if-zero' in und and post0['zf'] == 1:
+            # bsf/bsr with a zero source: the destination is undefined (Intel) / unchanged (AMD, and what this processor does)
+            d0 = line.split()[1].strip(',')
+            und = set(und) | {c04.SUB.get(d0, d0)}
         mmx = bool(re.search(r'\bmm\d', line)) or line.startswith('emms')
         # x87 <-> MMX aliasing is outside the observed universe: MMX forms are observed through mm*, x87 forms through float_*
         hidden = (lambda k: k.startswith('float_') or k == 'reg_float_control') if mmx else (lambda k: bool(re.match(r'mm\d', k)))
@@ -309,6 +313,11 @@ def form_case(ctx, part, line, b, fpsse, tier, seg=False):
                 pre1 = pre_observe(ch.get('regs', regs), ch.get('fl', fl), ch.get('img', img), ch.get('fx', fx), ch.get('segs'))
                 post1 = observe(r1)
                 written = written0 | {k for k in post1 if k != 'eip' and post1[k] != pre1[k]}
+                if not fpsse:
+                    # a location the lifted semantics claim to write is an output even where the processor leaves it alone: if its
+                    # final value follows its own initial value (a write that does not happen for this count / condition), the
+                    # initial value is a real input of the claimed write
+                    written = written | {k for k in post1 if k in wr}
                 diff = [k for k in written if post0[k] != post1[k] and k not in und]
                 if post0['eip'] != post1['eip']:
                     diff.append('eip')
@@ -344,12 +353,21 @@ def form_case(ctx, part, line, b, fpsse, tier, seg=False):
         part.violation('%s missing-write=%s' % (sigbase, k), '%s (%s): %s' % (line, b.hex(), d), {'line': line, 'bytes': b.hex(), 'fpsse': fpsse, 'seg': seg})
 
 
+def count_key(line):
+    """quick tier: shifts and rotates by an immediate keep one representative per class of the masked count"""
+    m = re.match(r'(shl|sal|shr|sar|rol|ror|rcl|rcr|shld|shrd) .*, (\d+)$', line)
+    if not m:
+        return ''
+    c = int(m.group(2))
+    return 'c=0' if c == 0 else 'c=32k' if c & 31 == 0 else 'c=1' if c & 31 == 1 else 'c=n'
+
+
 def all_forms(tier):
     F = []
     seen = set()
     for line, kind in c04.forms(tier):
         # one representative per (mnemonic, operand form) for the integer core; all counts for shifts collapse
-        key = (line.split()[0], c04.opform(line), re.sub(r'\d+', 'N', line) if tier == 'thorough' else '')
+        key = (line.split()[0], c04.opform(line), re.sub(r'\d+', 'N', line) if tier == 'thorough' else count_key(line))
         if key in seen:
             continue
         seen.add(key)
